@@ -809,7 +809,7 @@ def run(tier, replay=None):
         return chk.finish()
 
     # ---- direction A: model checking + emission + replay
-    samp = 6 if tier == "quick" else 8
+    samp = 6 if tier == "quick" else 16
     g = run_tlc_sharded("MC_Conditional",
                         dict(constants={"Tier": tier, "Fam": "all", "SEED": common.SEED, "SAMPLE": samp, "SALT": common.SEED},
                              invariants=INVS + ["Emit"]), nshards=(8 if tier == "quick" else None))
